@@ -99,7 +99,7 @@ def build(active_known=frozenset()):
         c.loop(0, invariant=inv, frame=[], lists=False)
 
         def rp(m, ctx, ob):
-            return ELEM_REPLAY
+            return ELEM_REPLAY.replace("KNOWN_BOOL_FINDING", repr("C05-bool-vs-number-elements" in active_known))
 
         c.replay(rp)
         c.replay_without_model = True
@@ -138,12 +138,21 @@ def build(active_known=frozenset()):
 
 ELEM_REPLAY = r'''
 from basilisp.lang import vector as vec, list as llist, runtime
-pairs = [(vec.v(True), vec.v(1)), (vec.v(1), llist.l(True)), (vec.v(False, 2), vec.v(0, 2)), (vec.v(None), vec.v(None))]
+from basilisp.lang import queue as lqueue, seq as lseq
+# pairs whose elements are a boolean against the number Python identifies it with (the recorded known finding) ...
+bool_pairs = [(vec.v(True), vec.v(1)), (vec.v(1), llist.l(True)), (vec.v(False, 2), vec.v(0, 2))]
+# ... and pairs that differ in length / nil padding / representation class
+def lazy(*xs):
+    return lseq.iterator_sequence(iter(xs))
+shape_pairs = [(vec.v(None), vec.v(None)), (llist.l(), llist.l(None)), (llist.l(None), llist.l()), (llist.l(1), llist.l(1, None)), (vec.v(1), lazy(1, None)), (lazy(1, None), vec.v(1)),
+               (vec.v(1, 2), llist.l(1, 2)), (llist.l(1, 2), vec.v(1, 2)), (lqueue.q(1, 2), vec.v(1, 2)), (vec.v(1, 2), vec.v(1, 3)), (vec.v(1, 2), llist.l(1)), (llist.l(), vec.v()), (llist.l(None, None), llist.l(None))]
+pairs = shape_pairs + ([] if KNOWN_BOOL_FINDING else bool_pairs)
 bad = []
 for a, b in pairs:
-    elementwise = len(a) == len(b) and all(runtime.equals(x, y) for x, y in zip(a, b))
+    la, lb = list(a), list(b)
+    elementwise = len(la) == len(lb) and all(runtime.equals(x, y) for x, y in zip(la, lb))
     if (a == b) != elementwise:
-        bad.append("%r == %r is %s although runtime.equals on the elements says %s" % (a, b, a == b, elementwise))
+        bad.append("%r == %r is %s although the lengths are %d/%d and runtime.equals on the elements says %s" % (a, b, a == b, len(la), len(lb), elementwise))
 for l in bad:
     print(l)
 print("REPRODUCED" if bad else "not reproduced")
